@@ -715,3 +715,64 @@ Definition npart_is_field (n : npart) : bool := match n with PField _ => true | 
 Definition stmt_ext_free (st : stmt) : bool := forallb npart_is_field (sname st) && value_ext_free (svalue st).
 (* every non-custom statement is free of extensions (custom ones start with one by definition) *)
 Definition noncustom_ext_free (sts : list stmt) : bool := forallb (fun st => is_custom st || stmt_ext_free st) sts.
+
+(* ------------------------------------------------------------------ the repaired lenient run *)
+(* Proposed repair of interpreter.interpretOptions: in lenient mode the message is copied before each option
+   and the copy is taken back when the option reported an error.  Besides the message and the remainder the
+   model returns (as a ghost) the options that were interpreted, in the order of the pass. *)
+Fixpoint pass_lenient_fx (sch : schema) (tt : N) (custom : bool) (T : nat) (msg : mval) (uo : list stmt)
+  : option (mval * list stmt * list stmt) :=
+  match uo with
+  | [] => Some (msg, [], [])
+  | st :: r =>
+    if negb (Bool.eqb (is_custom st) custom) then
+      match pass_lenient_fx sch tt custom T msg r with
+      | Some (m', rem, done) => Some (m', st :: rem, done)
+      | None => None
+      end
+    else
+      let '(m1, e) := interpret_field sch tt T msg (sname st) (svalue st) in
+      if has_panic e then None
+      else
+        match e with
+        | [] =>
+          match pass_lenient_fx sch tt custom T m1 r with
+          | Some (m', rem, done) => Some (m', rem, st :: done)
+          | None => None
+          end
+        | _ :: _ =>
+          match pass_lenient_fx sch tt custom T msg r with
+          | Some (m', rem, done) => Some (m', st :: rem, done)
+          | None => None
+          end
+        end
+  end.
+Definition interpret_lenient_fx (sch : schema) (tt : N) (T : nat) (m0 : mval) (stmts : list stmt)
+  : option (mval * list stmt * list stmt) :=
+  match pass_lenient_fx sch tt false T m0 stmts with
+  | None => None
+  | Some (m1, r1, d1) =>
+    match pass_lenient_fx sch tt true T m1 r1 with
+    | None => None
+    | Some (m2, r2, d2) => Some (m2, r2, d1 ++ d2)
+    end
+  end.
+Definition lres_of_fx (r : option (mval * list stmt * list stmt)) : lres :=
+  match r with Some (m, rem, _) => LOk m rem | None => LPanic end.
+(* applying statements one after the other, every one without error *)
+Fixpoint apply_all (sch : schema) (tt : N) (T : nat) (m : mval) (sts : list stmt) : option mval :=
+  match sts with
+  | [] => Some m
+  | st :: r =>
+    match interpret_field sch tt T m (sname st) (svalue st) with
+    | (m1, []) => apply_all sch tt T m1 r
+    | (_, _ :: _) => None
+    end
+  end.
+
+Definition opt_chk_lenient_fx (c : opt_case) : bool :=
+  match c with OC sch tg T stmts _ ol _ =>
+    lenient_matches sch T stmts (lres_of_fx (interpret_lenient_fx sch tg T [] stmts)) ol end.
+Definition opt_chk_unlinked_fx (c : opt_case) : bool :=
+  match c with OC sch tg T stmts _ _ ou =>
+    lenient_matches sch T stmts (lres_of_fx (interpret_lenient_fx (no_exts sch) tg T [] stmts)) ou end.
